@@ -53,7 +53,7 @@ pub open spec fn frame_of<T>(m: T) -> Seq<u8> { be4(cbor_of(m).len() as u32) + c
     r is Ok ==> cbor_of(*msg).len() <= 0x10_0000 && w_written(&*final(w)) == w_written(&*old(w)) + frame_of(*msg),
 //@replace /(?s)into_writer\(msg, &mut buf\)\s*\.map_err\(\|e\| std::io::Error::new\(std::io::ErrorKind::InvalidData, e\.to_string\(\)\)\)/ => cbor_into(msg, &mut buf)
 //@replace /(?s)u32::try_from\(buf\.len\(\)\)\s*\.map_err\(\|_\| std::io::Error::new\(std::io::ErrorKind::InvalidData, "frame too large"\)\)/ => u32_try_from_len(buf.len())
-//@replace /(?s)std::io::Error::new\(\s*std::io::ErrorKind::InvalidData,\s*"frame exceeds MAX_FRAME",\s*\)/ => io_invalid_data()
+//@replace? /(?s)std::io::Error::new\(\s*std::io::ErrorKind::InvalidData,\s*"frame exceeds MAX_FRAME",\s*\)/ => io_invalid_data() #all
 //@replace /len\.to_be_bytes\(\)/ => u32_to_be_bytes(len)
 //@at entry
     proof { assert(1u32 << 20 == 0x10_0000u32) by(bit_vector); }
@@ -72,9 +72,17 @@ pub open spec fn frame_of<T>(m: T) -> Seq<u8> { be4(cbor_of(m).len() as u32) + c
     // total: a value, a clean end of input at a frame boundary (None), or an error - and the buffer for the control
     // frame is only ever allocated AFTER the length passed the 1 MiB bound check (see the assertion before `vec!`)
     res is Ok && res->Ok_0 is Some ==> in_domain(res->Ok_0->Some_0),
+    // in step: a delivered message consumed exactly its own frame - 4 length bytes (<= 1 MiB) and that many payload bytes -
+    // and is what those payload bytes decode to
+    res is Ok && res->Ok_0 is Some ==> exists|n: u32| n <= 0x10_0000 && ({
+        let c = r_content(&*old(r)); let p = r_pos(&*old(r)) as int;
+        &&& r_content(&*final(r)) == c && r_pos(&*final(r)) == p + 4 + n && p + 4 + n <= c.len()
+        &&& #[trigger] be4(n) == c.subrange(p, p + 4)
+        &&& cbor_parse::<T>(c.subrange(p + 4, p + 4 + n)) == Some(res->Ok_0->Some_0)
+    }),
 //@replace /Err\(e\) if e\.kind\(\) == std::io::ErrorKind::UnexpectedEof => return Ok\(None\),/ => Err(e) if err_is_unexpected_eof(&e) => return Ok(None),
 //@replace /u32::from_be_bytes\(lenb\)/ => u32_from_be_bytes(lenb)
-//@replace /(?s)std::io::Error::new\(\s*std::io::ErrorKind::InvalidData,\s*"frame exceeds MAX_FRAME",\s*\)/ => io_invalid_data()
+//@replace? /(?s)std::io::Error::new\(\s*std::io::ErrorKind::InvalidData,\s*"frame exceeds MAX_FRAME",\s*\)/ => io_invalid_data() #all
 //@replace /(?s)from_reader\(&buf\[\.\.\]\)\s*\.map\(Some\)\s*\.map_err\(\|e\| std::io::Error::new\(std::io::ErrorKind::InvalidData, e\.to_string\(\)\)\)/ => cbor_from(&buf)
 //@at before /let mut buf = vec!\[0u8; len as usize\];/
     // C12: memory reserved for a control frame never exceeds the 1 MiB bound
@@ -106,7 +114,7 @@ pub proof fn lemma_inside_join(root: PathV, p: PathV, y: PathV)
     }
 }
 // R5 shims for safe_join's std::path calls (component grammar ASSUMED): Path::new(rel), is_absolute, components()
-pub enum Component { Prefix, RootDir, CurDir, ParentDir, Normal }
+pub enum Component { Prefix(u8), RootDir, CurDir, ParentDir, Normal(u8) }      // payloads (PrefixComponent, &OsStr) abstracted to a byte
 pub uninterp spec fn comps_of(p: PathV) -> Seq<Component>;
 pub uninterp spec fn is_abs(p: PathV) -> bool;
 pub open spec fn bad_comp(c: Component) -> bool { c is ParentDir || c is RootDir || c is Prefix }
@@ -128,7 +136,6 @@ pub broadcast axiom fn ax_grammar(p: PathV)
 //@replace /Path::new\(rel\)/ => path_new(rel)
 //@replace /p\.is_absolute\(\)/ => path_is_absolute(p)
 //@replace /for c in p\.components\(\)(?= \{)/ => for c in cit: &cv
-//@replace /(?s)matches!\(\s*c,\s*Component::ParentDir \| Component::RootDir \| Component::Prefix\(_\)\s*\)/ => comp_is_bad(c)
 //@at before /for c in p\.components\(\)/
     let cv = path_components(p);
 //@loop 0 invariant
@@ -177,8 +184,11 @@ pub broadcast axiom fn ax_tmp_no_slash() ensures #[trigger] no_slash(TMP());
 // what the hub holds at a path, as the hash the protocol compares (None = absent)
 pub open spec fn cur_of(files: Map<PathV, FileS>, p: PathV) -> Option<Seq<u8>> { if files.contains_key(p) { Some(H(files[p].bytes)) } else { None } }
 pub open spec fn hv(h: Option<Hash>) -> Option<Seq<u8>> { match h { Some(x) => Some(x@), None => None } }
+pub proof fn lemma_hv_inj(a: Option<Hash>, b: Option<Hash>) requires hv(a) == hv(b) ensures a == b {
+    match (a, b) { (Some(x), Some(y)) => { assert(x@ == y@); assert(x =~= y); }, _ => {} }
+}
 #[verifier::external_body]
-pub fn short_hash(h: &Hash) -> (r: String) { unimplemented!() }      // iterator + write!: assumed (A)
+pub fn short_hash(h: &Hash) -> (r: String) ensures r@ == short_hex(h@) { unimplemented!() }      // iterator + write!: assumed (A)
 pub uninterp spec fn conflict_sfx(hex: Seq<char>) -> Seq<char>;
 pub uninterp spec fn conflict_sfx_arg(s: Seq<char>) -> Seq<char>;
 #[verifier::external_body]
@@ -201,21 +211,25 @@ pub broadcast axiom fn ax_strv_nonempty(s: Seq<char>) ensures #[trigger] strv(s)
     res is Ok ==> !final(fs).lock,
     // C11: a refused path changes nothing
     safe_join_none(pv(root), path@) ==> final(fs).files == old(fs).files && final(fs).log == old(fs).log,
-    // C03: the delete is one atomic compare-and-swap against the state L this process saw when it got the commit lock
-    (res is Ok && !safe_join_none(pv(root), path@)) ==> exists|l: World| #[trigger] l.lock && l.root == old(fs).root && ({
-        let d = joinv(pv(root), strv(path@));
-        &&& (hv(expected) == cur_of(l.files, d) ==> final(fs).files == l.files.remove(d) || final(fs).files == l.files)
-        &&& (hv(expected) != cur_of(l.files, d) ==> final(fs).files == l.files)
-    }),
+    // C03: the delete is ONE atomic compare-and-swap against the tree this process saw when it acquired the commit lock
+    // (final(fs).seen, recorded by vfs_lock_exclusive), and the reply says what happened
+    (res is Ok && !safe_join_none(pv(root), path@)) ==> exists|m: Response| w_written(&*final(w)) == w_written(&*old(w)) + #[trigger] frame_of(m)
+        && del_reply_ok(m, *old(fs), *final(fs), joinv(pv(root), strv(path@)), hv(expected)),
 //@replace /(?s)std::fs::OpenOptions::new\(\)\s*\.create\(true\)\s*\.truncate\(false\)\s*\.write\(true\)\s*\.open\(lockdir\.join\("commit\.lock"\)\)/ => vfs_open_lock(lockdir.join("commit.lock"), Tracked(fs))
-//@replace /lf\.lock_exclusive\(\)/ => vfs_lock_exclusive(&lf, Tracked(fs))
-//@replace /fs2::FileExt::unlock\(&lf\)/ => vfs_unlock(&lf, Tracked(fs))
-//@replace /current_hash\(&dst\)/ => current_hash(&dst, Tracked(&*fs))
-//@replace /std::fs::remove_file\(&dst\)/ => vfs_remove_file(&dst, Tracked(fs))
+//@replace? /lf\.lock_exclusive\(\)/ => vfs_lock_exclusive(&lf, Tracked(fs))
+//@replace? /fs2::FileExt::unlock\(&lf\)/ => vfs_unlock(&lf, Tracked(fs))
+//@replace? /current_hash\(((?:[^()]|\((?:[^()]|\([^()]*\))*\))*)\)/ => current_hash(\1, Tracked(&*fs)) #all
+//@replace? /std::fs::remove_file\(((?:[^()]|\((?:[^()]|\([^()]*\))*\))*)\)/ => vfs_remove_file(\1, Tracked(fs)) #all
 //@replace /"bad path"\.into\(\)/ => str_into("bad path") #all
 //@at entry
     broadcast use asp_path, asp_pathbuf, asp_pathbuf_val, asp_str;
     let ghost w0 = *fs;
+//@at after /let current = current_hash\(&dst\);/
+        proof {
+            assert(pbv(&dst) == joinv(pv(root), strv(path@)));
+            assert(fs.lock ==> hv(current) == cur_of(fs.files, joinv(pv(root), strv(path@))));
+            if hv(expected) == hv(current) { lemma_hv_inj(expected, current); }
+        }
 //@at before /let lf = /
     proof { lemma_inside_join(pv(root), pv(lockdir), strv("commit.lock"@)); assert(!is_staging(pbv(&dst)) || true); }
 //@at after /lf\.lock_exclusive\(\)\?;/
@@ -225,8 +239,41 @@ pub broadcast axiom fn ax_strv_nonempty(s: Seq<char>) ensures #[trigger] strv(s)
         let d = joinv(pv(root), strv(path@));
         assert(pbv(&dst) == d);
         if !locked.files.contains_key(d) { assert(locked.files.remove(d) =~= locked.files); }
+        assert(fs.seen == locked.files && fs.nlock == w0.nlock + 1);
+        assert(del_reply_ok(out, w0, *fs, d, hv(expected)));
     }
+//@at before /write_frame\(w, &resp\)/
+    proof { assert(del_reply_ok(resp, w0, *fs, joinv(pv(root), strv(path@)), hv(expected))); }
 //@end
+pub open spec fn del_reply_ok(m: Response, o: World, n: World, d: PathV, expected: Option<Seq<u8>>) -> bool {
+    let l = n.seen;
+    n.nlock == o.nlock + 1 && match m {
+        Response::DeleteResult { deleted, current } =>
+            if deleted { expected == cur_of(l, d) && (n.files == l.remove(d) || n.files == l /* unlink itself failed: I/O fault */) }
+            else { expected != cur_of(l, d) && n.files == l && hv(current) == cur_of(l, d) },
+        _ => false,
+    }
+}
+// the name a stale write is preserved under
+pub uninterp spec fn short_hex(h: Seq<u8>) -> Seq<char>;
+pub open spec fn conflict_path(d: PathV, hash: Seq<u8>) -> PathV { d + strv(conflict_sfx(short_hex(hash))) }
+pub open spec fn put_reply_ok(m: Response, o: World, n: World, d: PathV, expected: Option<Seq<u8>>, hash: Seq<u8>) -> bool {
+    let l = n.seen;
+    let c = conflict_path(d, hash);
+    match m {
+        // refused before the critical section (hash mismatch), or the commit itself failed: no live path changed
+        Response::Error(_) => (n.nlock == o.nlock && live_same(n.files, o.files, Set::empty()))
+            || (n.nlock == o.nlock + 1 && live_same(n.files, l, Set::empty())),
+        Response::PutResult { committed, current } => n.nlock == o.nlock + 1 && (
+            // acknowledged committed: CAS held against the locked tree, and the live file now IS the verified, flushed content
+            if committed { expected == cur_of(l, d) && n.files.contains_key(d) && H(n.files[d].bytes) == hash && n.files[d].synced
+                           && live_same(n.files, l, set![d]) && hv(current) == Some(hash) }
+            // stale: the live file (and every other live path) is exactly as locked; the bytes are preserved in the conflict copy
+            else { expected != cur_of(l, d) && hv(current) == cur_of(l, d) && n.files.contains_key(c) && H(n.files[c].bytes) == hash
+                   && live_same(n.files, l, set![c]) }),
+        _ => false,
+    }
+}
 pub open spec fn safe_join_none(root: PathV, rel: Seq<char>) -> bool {
     is_abs(strv(rel)) || exists|i: int| 0 <= i < comps_of(strv(rel)).len() && bad_comp(#[trigger] comps_of(strv(rel))[i])
 }
@@ -244,6 +291,7 @@ pub proof fn mark_verified(p: PathV, hash: Seq<u8>, tracked w: &mut World)
     requires old(w).files.contains_key(p), H(old(w).files[p].bytes) == hash,
     ensures final(w).verified == old(w).verified.insert(p, hash), final(w).files == old(w).files, final(w).root == old(w).root,
         final(w).lock == old(w).lock, final(w).private == old(w).private, final(w).reliable == old(w).reliable, final(w).log == old(w).log,
+        final(w).seen == old(w).seen, final(w).nlock == old(w).nlock,
 { }
 // R5 shim for `std::io::copy(&mut r.take(len), &mut std::io::sink())`: discard up to len bytes of the request stream
 #[verifier::external_body]
@@ -265,32 +313,24 @@ pub fn drain_content<R: Read>(r: &mut R, len: u64) -> (res: std::io::Result<u64>
     // C11/C12: a refused path changes nothing, and its content is drained so the stream stays in step
     safe_join_none(pv(root), path@) ==> final(fs).files == old(fs).files && final(fs).log == old(fs).log
         && (res is Ok ==> stream_of(&*final(r)) == stream_of(&*old(r)).skip(if len as int <= stream_of(&*old(r)).len() { len as int } else { stream_of(&*old(r)).len() as int })),
-    // C03 + C10: either no live path changed at all (hash mismatch, I/O error), or there is the state L this process saw
-    // when it got the commit lock such that: a stale CAS leaves the live file exactly as in L; and whatever new content
-    // became live at the path has the declared hash
-    (res is Ok && !safe_join_none(pv(root), path@)) ==> live_same(final(fs).files, old(fs).files, Set::empty())
-        || exists|l: World| #[trigger] l.lock && l.root == old(fs).root && ({
-            let d = joinv(pv(root), strv(path@));
-            &&& (hv(expected) != cur_of(l.files, d) ==> final(fs).files.dom().contains(d) == l.files.dom().contains(d)
-                    && (l.files.dom().contains(d) ==> final(fs).files[d] == l.files[d]))
-            &&& (final(fs).files.dom().contains(d) && !(l.files.dom().contains(d) && final(fs).files[d] == l.files[d]) ==> H(final(fs).files[d].bytes) == hash@)
-        }),
-//@replace /(?s)std::io::copy\(&mut r\.take\(len\), &mut std::io::sink\(\)\)/ => drain_content(r, len)
-//@replace /std::fs::create_dir_all\(p\)/ => vfs_create_dir_all(p, Tracked(fs))
-//@replace /std::fs::File::create\(&tmp\)/ => vfs::File::create(&tmp, Tracked(fs))
-//@replace /tf\.write_all\(&buf\[\.\.n\]\)/ => tf.write_all(&buf[..n], Tracked(fs))
-//@replace /tf\.sync_all\(\)/ => tf.sync_all(Tracked(fs))
-//@replace /std::fs::remove_file\(&tmp\)/ => vfs_remove_file(&tmp, Tracked(fs)) #all
+    // C03 + C10: the reply is truthful about ONE atomic compare-and-swap against the tree seen on acquiring the commit lock
+    (res is Ok && !safe_join_none(pv(root), path@)) ==> exists|m: Response| w_written(&*final(w)) == w_written(&*old(w)) + #[trigger] frame_of(m)
+        && put_reply_ok(m, *old(fs), *final(fs), joinv(pv(root), strv(path@)), hv(expected), hash@),
+//@replace? /(?s)std::io::copy\(&mut r\.take\(len\), &mut std::io::sink\(\)\)/ => drain_content(r, len)
+//@replace? /std::fs::create_dir_all\(((?:[^()]|\((?:[^()]|\([^()]*\))*\))*)\)/ => vfs_create_dir_all(\1, Tracked(fs)) #all
+//@replace? /std::fs::File::create\(((?:[^()]|\((?:[^()]|\([^()]*\))*\))*)\)/ => vfs::File::create(\1, Tracked(fs)) #all
+//@replace? /tf\.write_all\(((?:[^()]|\((?:[^()]|\([^()]*\))*\))*)\)/ => tf.write_all(\1, Tracked(fs)) #all
+//@replace? /tf\.sync_all\(\)/ => tf.sync_all(Tracked(fs)) #all
+//@replace? /std::fs::remove_file\(((?:[^()]|\((?:[^()]|\([^()]*\))*\))*)\)/ => vfs_remove_file(\1, Tracked(fs)) #all
 //@replace /(?s)std::fs::OpenOptions::new\(\)\s*\.create\(true\)\s*\.truncate\(false\)\s*\.write\(true\)\s*\.open\(lockdir\.join\("commit\.lock"\)\)/ => vfs_open_lock(lockdir.join("commit.lock"), Tracked(fs))
-//@replace /lf\.lock_exclusive\(\)/ => vfs_lock_exclusive(&lf, Tracked(fs))
-//@replace /fs2::FileExt::unlock\(&lf\)/ => vfs_unlock(&lf, Tracked(fs))
-//@replace /current_hash\(&dst\)/ => current_hash(&dst, Tracked(&*fs))
-//@replace /std::fs::rename\(&tmp, &dst\)/ => vfs_rename(&tmp, &dst, Tracked(fs))
-//@replace /std::fs::rename\(&tmp, PathBuf::from\(cn\)\)/ => vfs_rename(&tmp, PathBuf::from(cn), Tracked(fs))
+//@replace? /lf\.lock_exclusive\(\)/ => vfs_lock_exclusive(&lf, Tracked(fs))
+//@replace? /fs2::FileExt::unlock\(&lf\)/ => vfs_unlock(&lf, Tracked(fs))
+//@replace? /current_hash\(((?:[^()]|\((?:[^()]|\([^()]*\))*\))*)\)/ => current_hash(\1, Tracked(&*fs)) #all
+//@replace? /std::fs::rename\(((?:[^()]|\((?:[^()]|\([^()]*\))*\))*)\)/ => vfs_rename(\1, Tracked(fs)) #all
 //@replace /format!\("\.conflict-\{\}", super::wire::short_hash\(&hash\)\)/ => vfmt_conflict(short_hash(&hash))
 //@replace /"bad path"\.into\(\)/ => str_into("bad path")
-//@replace /"content hash mismatch"\.into\(\)/ => str_into("content hash mismatch")
-//@replace /\*hasher\.finalize\(\)\.as_bytes\(\) != hash/ => hash_ne(hasher.finalize().as_bytes(), &hash)
+//@replace? /"content hash mismatch"\.into\(\)/ => str_into("content hash mismatch")
+//@replace? /\*hasher\.finalize\(\)\.as_bytes\(\) != hash/ => hash_ne(hasher.finalize().as_bytes(), &hash)
 //@at entry
     broadcast use asp_path, asp_pathbuf, asp_pathbuf_val, asp_str, asp_string;
     let ghost w0 = *fs;
@@ -309,27 +349,32 @@ pub fn drain_content<R: Read>(r: &mut R, len: u64) -> (res: std::io::Result<u64>
 //@loop 0 invariant
             w0 == *old(fs), w0.root == pv(root), !safe_join_none(pv(root), path@), fs.log.len() >= 0,
             buf@.len() == 256 * 1024, tf.path() == pbv(&tmp), is_staging(pbv(&tmp)), inside(pv(root), pbv(&tmp)),
-            fs.root == pv(root), !fs.lock, fs.private.contains(pbv(&tmp)),
+            fs.root == pv(root), !fs.lock, fs.private.contains(pbv(&tmp)), fs.nlock == w0.nlock,
             fs.files.contains_key(pbv(&tmp)), blake3::hasher_view(&hasher) == fs.files[pbv(&tmp)].bytes,
             live_same(fs.files, w0.files, Set::empty()),
 //@loop 0 decreases
             stream_of(&limited).len()
 //@at loop 0 entry
             let ghost wl = *fs;
-//@at after /tf\.sync_all\(\)\?;/
+//@at? after /tf\.sync_all\(\)\?;/
         let ghost w_sync = *fs;
         proof {
             assert(!Set::<PathV>::empty().contains(pbv(&tmp)));
             assert(w_sync.files.dom().contains(pbv(&tmp)));
             assert(w_sync.files[pbv(&tmp)].bytes == blake3::hasher_view(&hasher) && w_sync.files[pbv(&tmp)].synced);
         }
-//@at before /if \*hasher\.finalize\(\)\.as_bytes\(\) != hash/
+//@at before /let resp = /
     let ghost w_staged = *fs;
     proof {
         assert(w_staged.files.dom().contains(pbv(&tmp)) && w_staged.files[pbv(&tmp)].bytes == blake3::hasher_view(&hasher) && w_staged.files[pbv(&tmp)].synced);
         assert(w_staged.private.contains(pbv(&tmp)));
         assert(live_same(w_staged.files, w0.files, Set::empty()));
     }
+//@at after /let current = current_hash\(&dst\);/
+        proof {
+            assert(fs.lock ==> hv(current) == cur_of(fs.files, d));
+            if hv(expected) == hv(current) { lemma_hv_inj(expected, current); }
+        }
 //@at before /let lf = /
     proof {
         lemma_inside_join(pv(root), pv(lockdir), strv("commit.lock"@));
@@ -344,13 +389,37 @@ pub fn drain_content<R: Read>(r: &mut R, len: u64) -> (res: std::io::Result<u64>
         assert(locked.files.dom().contains(pbv(&tmp)) == w_pre.files.dom().contains(pbv(&tmp)));
         assert(locked.files.dom().contains(pbv(&tmp)) && locked.files[pbv(&tmp)] == w_staged.files[pbv(&tmp)]);
     }
-//@at before /match std::fs::rename\(&tmp, PathBuf::from\(cn\)\)/
+//@at? before /match std::fs::rename\(&tmp, PathBuf::from\(cn\)\)/
                 proof {
                     broadcast use ax_conflict_not_staging, ax_strv_nonempty;
                     assert(exists|t: Seq<char>| osbv(&cn) == d + #[trigger] strv(t) && no_slash(strv(t)) && !ends_with_tmp(strv(t)));
                     let t = choose|t: Seq<char>| osbv(&cn) == d + #[trigger] strv(t) && no_slash(strv(t)) && !ends_with_tmp(strv(t));
                     lemma_inside_suffix(pv(root), d, strv(t));
                 }
+//@at? before /return write_frame\(w, &Response::Error\("content hash mismatch"/
+        proof { assert forall|s: String| #[trigger] put_reply_ok(Response::Error(s), w0, *fs, d, hv(expected), hash@) by {
+            assert(fs.nlock == w0.nlock);
+            assert forall|p: PathV| !is_staging(p) implies (#[trigger] fs.files.dom().contains(p)) == w0.files.dom().contains(p)
+                && (fs.files.dom().contains(p) ==> fs.files[p].bytes == w0.files[p].bytes) by { assert(p != pbv(&tmp)); }
+        } }
+//@at before /let _ = fs2::FileExt::unlock\(&lf\);/
+    proof {
+        assert(fs.seen == locked.files && fs.nlock == w0.nlock + 1);
+        assert(out is Err ==> fs.files == locked.files);
+        assert(out is Ok ==> put_reply_ok(out->Ok_0, w0, *fs, d, hv(expected), hash@));
+    }
+//@at before /match resp \{/
+    let ghost w_unl = *fs;
+    proof {
+        assert(w_unl.nlock == w0.nlock + 1);
+        assert(resp is Ok ==> put_reply_ok(resp->Ok_0, w0, w_unl, d, hv(expected), hash@));
+        assert(resp is Err ==> w_unl.files == w_unl.seen);
+    }
+//@at? before /write_frame\(w, &Response::Error\(format!\("commit failed/
+            proof { assert forall|s: String| #[trigger] put_reply_ok(Response::Error(s), w0, *fs, d, hv(expected), hash@) by {
+                assert forall|p: PathV| !is_staging(p) implies (#[trigger] fs.files.dom().contains(p)) == fs.seen.dom().contains(p)
+                    && (fs.files.dom().contains(p) ==> fs.files[p].bytes == fs.seen[p].bytes) by { assert(p != pbv(&tmp)); }
+            } }
 //@at loop 0 end
             proof {
                 assert(fs.files.dom().contains(pbv(&tmp)));
@@ -396,10 +465,10 @@ pub open spec fn get_reply_ok(m: Response, body: Seq<u8>) -> bool {
 //@ensures
     res is Ok ==> (exists|s: String| w_written(&*final(w)) == w_written(&*old(w)) + #[trigger] frame_of_err(s))
         || exists|m: Response, body: Seq<u8>| w_written(&*final(w)) == w_written(&*old(w)) + frame_of(m) + body && #[trigger] get_reply_ok(m, body),
-//@replace /std::fs::File::open\(&dst\)/ => vfs::File::open(&dst, Tracked(fs))
-//@replace /std::io::copy\(&mut f, &mut hasher\)/ => vfs_hash_file(&mut f, &mut hasher)
-//@replace /f\.seek\(std::io::SeekFrom::Start\(0\)\)/ => vfs_seek_start(&mut f)
-//@replace /std::io::copy\(&mut f\.take\(len\), w\)/ => vfs_stream_file(f, len, w)
+//@replace? /std::fs::File::open\(((?:[^()]|\((?:[^()]|\([^()]*\))*\))*)\)/ => vfs::File::open(\1, Tracked(fs)) #all
+//@replace? /std::io::copy\(&mut f, &mut hasher\)/ => vfs_hash_file(&mut f, &mut hasher)
+//@replace? /f\.seek\(std::io::SeekFrom::Start\(0\)\)/ => vfs_seek_start(&mut f)
+//@replace? /std::io::copy\(&mut f\.take\(len\), w\)/ => vfs_stream_file(f, len, w)
 //@replace /"bad path"\.into\(\)/ => str_into("bad path")
 //@replace /"not found"\.into\(\)/ => str_into("not found") #all
 //@at entry
